@@ -44,6 +44,10 @@ def langsys_features(font, tableTag, script, lang="dflt"):
         fr = t.FeatureList.FeatureRecord[fi]
         out.append((fr.FeatureTag, list(fr.Feature.LookupListIndex)))
     return out
+def languages_by_script(font, tableTag="GPOS"):
+    """{script tag: [language tags]} of the LangSysRecords present"""
+    if tableTag not in font or font[tableTag].table.ScriptList is None: return {}
+    return {r.ScriptTag: [l.LangSysTag for l in r.Script.LangSysRecord] for r in font[tableTag].table.ScriptList.ScriptRecord}
 def lookups_for(font, script, features, lang="dflt"):
     idx = set()
     for tag, lks in langsys_features(font, "GPOS", script, lang):
@@ -55,12 +59,12 @@ def _vr(v):
 def _subtables(lk):
     for st in lk.SubTable:
         yield st.ExtSubTable if st.LookupType == 9 else st
-def eval_pair(font, g1, g2, script, features=("kern", "dist"), lenient=False):
+def eval_pair(font, g1, g2, script, features=("kern", "dist"), lenient=False, lang="dflt"):
     """-> ((xPla,yPla,xAdv,yAdv) summed on glyph 1, number of lookups that applied, second-record-nonzero?)"""
     if "GPOS" not in font: return (0, 0, 0, 0), 0, False
     t = font["GPOS"].table
     tot = [0, 0, 0, 0]; n = 0; second = False
-    for li in lookups_for(font, script, features):
+    for li in lookups_for(font, script, features, lang):
         lk = t.LookupList.Lookup[li]
         if skipped(font, lk, g1) or skipped(font, lk, g2): continue
         for st in _subtables(lk):
